@@ -141,6 +141,18 @@ FUNCS += [
     dict(id='TokenToIndex', file='src/token.rs', fn='to_index', impl=r"impl<'a> Token<'a>", lean='Token.to_index',
          params=[('self', 'tok')], ret='res', rtype='Res ParseIndexError Index', imports=['IndexTryFromTokenRef']),
 ]
+FUNCS += [
+    dict(id='GetUsize', file='src/pointer/slice.rs', fn='get', impl=r"impl<'p> PointerIndex<'p> for usize", lean='Usize.get',
+         params=[('self', 'nat'), ('pointer', 'ptrself')], ret='pure', rtype='Option Bytes'),
+    dict(id='First', file='src/pointer.rs', fn='first', impl=PTR_IMPL, lean='Pointer.first', params=[('self', 'ptrself')], ret='pure', rtype='Option Bytes', imports=['Front']),
+    dict(id='Last', file='src/pointer.rs', fn='last', impl=PTR_IMPL, lean='Pointer.last', params=[('self', 'ptrself')], ret='pure', rtype='Option Bytes', imports=['Back']),
+    dict(id='WithTrailingToken', file='src/pointer.rs', fn='with_trailing_token', impl=PTR_IMPL, lean='Pointer.with_trailing_token',
+         params=[('self', 'ptrself'), ('token', 'intotoken')], ret='pure', rtype='Bytes', imports=['PushBack']),
+    dict(id='WithLeadingToken', file='src/pointer.rs', fn='with_leading_token', impl=PTR_IMPL, lean='Pointer.with_leading_token',
+         params=[('self', 'ptrself'), ('token', 'intotoken')], ret='pure', rtype='Bytes', imports=['PushFront']),
+    dict(id='Concat', file='src/pointer.rs', fn='concat', impl=PTR_IMPL, lean='Pointer.concat',
+         params=[('self', 'ptrself'), ('other', 'ptrself')], ret='pure', rtype='Bytes', imports=['Append']),
+]
 PE_IMPL = r"impl ParseError \{"
 FUNCS += [
     dict(id='ParseErrOffset', file='src/pointer.rs', fn='offset', impl=PE_IMPL, lean='ParseError.offset', params=[('self', 'errself:parseerror')], ret='pure', rtype='Nat'),
@@ -166,7 +178,7 @@ SIBLINGS = {'split_back': ('Pointer.split_back', 'opt(tuple:ptrself,tok)'), 'spl
 
 LEANTY = {'nat': 'Nat', 'bool': 'Bool', 'bytes': 'Bytes', 'cow': 'Cow', 'optnat': 'Option Nat', 'toklist': 'List Bytes',
           'tok': 'Bytes', 'index': 'Index', 'bound': 'Bound', 'ptr': 'Bytes', 'span': 'Span', 'tokself': 'Bytes',
-          'intocow': 'Bytes', 'unit': 'Unit', 'ptrself': 'Bytes', 'vref': 'Loc × Val', 'vroot': 'Val', 'bufself': 'Bytes', 'intotoken': 'Bytes', 'asrefptr': 'Bytes', 'docself': 'Val', 'val': 'Val', 'aref': 'Loc × List Val', 'oref': 'Loc × List (Bytes × Val)', 'assigned': 'Assigned', 'intoval': 'Val', 'resolveerr': 'ResolveErr', 'assignerr': 'AssignErr', 'parseerror': 'ParseError', 'bufref': 'Bytes', 'kvlist': 'List (Bytes × Val)', 'vallist': 'List Val'}
+          'intocow': 'Bytes', 'unit': 'Unit', 'ptrself': 'Bytes', 'vref': 'Loc × Val', 'vroot': 'Val', 'bufself': 'Bytes', 'intotoken': 'Bytes', 'asrefptr': 'Bytes', 'docself': 'Val', 'val': 'Val', 'aref': 'Loc × List Val', 'oref': 'Loc × List (Bytes × Val)', 'assigned': 'Assigned', 'intoval': 'Val', 'resolveerr': 'ResolveErr', 'assignerr': 'AssignErr', 'parseerror': 'ParseError', 'bufval': 'Bytes', 'bufref': 'Bytes', 'kvlist': 'List (Bytes × Val)', 'vallist': 'List Val'}
 
 # enums the subset may match on / construct: type tag -> [(lean ctor, [rust paths], [field types])]
 ENUMS = {
@@ -759,6 +771,7 @@ class Fn:
                 return k(paren(f"match {r} with\n| .ok {a} => Res.ok (Index.num {a})\n| .err {ev} => Res.err {ev}\n| .panic {m} => Res.panic {m}"), mk_res('index', te))
             if is_res(tr) and name == 'map_err' and len(args) == 1 and args[0] in (('path', ['ParseIndexError', 'from']), ('path', ['ParseIndexError', 'from_'])): return k(r, tr)
             if tr == 'intotoken' and name == 'into' and not args: return k(r, 'tok')
+            if tr == 'ptrself' and name == 'to_buf' and not args: return k(r, 'bufval')
             if tr == 'asrefptr' and name == 'as_ref' and not args: return k(r, 'ptrself')
             if tr == 'tok' and name == 'to_string' and not args: return k(f"(Token.toString {r})", 'bytes')     # Display = decoded
             if tr in BYTESLIKE and name in ('to_string', 'to_owned', 'clone') and not args: return k(r, 'bytes')
@@ -863,6 +876,7 @@ class Fn:
                     return self.E(args[0], env, ctx, lambda i, ti: k(f"{r}[{i}]?", 'optnat') if ti == 'nat' else self.bad("get(" + ti + ")"))
                 if name == 'tokens' and not args and tr == 'ptrself': return k(f"(tokens {r})", 'toklist')
             if tr == 'toklist':
+                if name == 'nth' and len(args) == 1: return self.E(args[0], env, ctx, lambda i, ti: k(f"{r}[{i}]?", 'opt(tok)') if ti == 'nat' else self.bad("nth(" + ti + ")"))
                 if name == 'collect' and not args: return k(r, 'toklist')
                 if name == 'len' and not args: return k(f"{r}.length", 'nat')
                 if name == 'get' and len(args) == 1: return self.E(args[0], env, ctx, lambda i, ti: k(f"{r}[{i}]?", 'opt(tok)'))
@@ -1267,6 +1281,14 @@ class Fn:
         if t == 'mcall' and e[2] == 'remove' and e[1][0] == 'path' and len(e[1][1]) == 1 and env.get(e[1][1][0]) == 'bytes' and e[3] == [('num', 0)]:
             v = e[1][1][0]
             return f"let {v} := {v}.drop 1\n{rest(env)}"
+        if t == 'mcall' and e[1][0] == 'path' and len(e[1][1]) == 1 and env.get(e[1][1][0]) == 'bufval' and e[2] in ('push_back', 'push_front', 'append') and len(e[3]) == 1:
+            v = e[1][1][0]
+            def aft_buf(a, ta):
+                if e[2] == 'append':
+                    if ta not in ('ptrself', 'asrefptr'): raise Unsupported("append(" + ta + ")")
+                elif ta not in ('tok', 'intotoken'): raise Unsupported(e[2] + "(" + ta + ")")
+                return f"let {v} := (PointerBuf.{e[2]} {v} {a})\n{rest(env)}"
+            return self.E(e[3][0], env, ctx, aft_buf)
         if t == 'dbgassert':
             # checked in test and debug builds: a failing condition is a panic
             if not (self.retkind in ('res',) or (self.retkind == 'mutdoc' and self.spec.get('docres') != 'plain')):
